@@ -26,7 +26,14 @@ def extra(report, env):
 
     def close(a, b):
         return abs(a - b) <= 1e-9 * max(1.0, abs(a), abs(b))
-    xs = [0.0, 1.0, -1.0, 0.5, -0.5, 2.0, 10.0, 1e-8, 123.456, -37.25, 1e6, 3.0, 0.999999, 1.000001] + \
+    # the edges of the domains, from both sides and a hair (1e-10, 1e-13, one ulp) away: a value just outside is an error, never a number
+    import math as _m
+    edges = []
+    for b in (1.0, -1.0, 0.0):
+        for e in (1e-10, 1e-13, 1e-7):
+            edges += [b + e, b - e]
+        edges += [_m.nextafter(b, _m.inf), _m.nextafter(b, -_m.inf)]
+    xs = [0.0, 1.0, -1.0, 0.5, -0.5, 2.0, 10.0, 1e-8, 123.456, -37.25, 1e6, 3.0, 0.999999, 1.000001] + edges + \
          [rng.uniform(-50, 50) for _ in range(60 if env['tier'] == 'quick' else 600)] + [10 ** rng.uniform(-12, 12) for _ in range(40)]
     import math as m
     ref = {'ABS': abs, 'SQRT': m.sqrt, 'EXP': m.exp, 'LN': m.log, 'LOG10': m.log10, 'SIN': m.sin, 'COS': m.cos, 'TAN': m.tan, 'ASIN': m.asin,
@@ -125,7 +132,7 @@ def extra(report, env):
         r = val('RANDBETWEEN(%d,%d)' % (a, b))
         if not (isinstance(r['result'], int) and a <= r['result'] <= b) and len(fails) < 5:
             fails.append({'formula': 'RANDBETWEEN(%d,%d)' % (a, b), 'detail': 'got %r' % (r,)})
-    bounded(report, 'C16.grid', '22 functions x ~110 reals over 24 orders of magnitude (value inside the domain, error outside), numeric text / logical / '
+    bounded(report, 'C16.grid', '22 functions x ~110 reals over 24 orders of magnitude (value inside the domain, error outside; the domain edges -1, 0, 1 from both sides at 1e-7, 1e-10, 1e-13 and one ulp), numeric text / logical / '
             'non-numeric text arguments, 9 identities, ATAN2 on a 9x8 grid incl. magnitudes 1e-300..1e200, seeded PV equations, RAND/RANDBETWEEN', cases, fails)
 
 
